@@ -112,3 +112,9 @@ Print Assumptions C14_str2int_sound.
 Theorem C14_str2int_shape_separates : forall v, ~ numeral_shape 0 [48; 120] v.
 Proof. exact shape_rejects_prefix_only. Qed.
 Print Assumptions C14_str2int_shape_separates.
+
+(* scraped fact the float streams rely on (trip-wire): the infinity branch of CEmitter:add_scalar_literal is guarded by
+   bn.isinfinite(num) alone - no finite constant, of any float width, is emitted as infinity by the printer itself *)
+Theorem C14_emit_inf_guard : EMIT_INF_GUARD_IS_ISINFINITE = true.
+Proof. exact emit_inf_guard. Qed.
+Print Assumptions C14_emit_inf_guard.
